@@ -57,7 +57,7 @@ Proof. exact loaded_equals_direct. Qed.
 Theorem C07_recovery : forall (remote : otype -> string -> bytes) (w : world) (l : loader),
   Inv remote w -> l_fault l = NoFault -> ~ In (tkey l) (map tkey (w_loaders w)) ->
   let i := length (w_loaders w) in
-  let w' := solo remote (do_action remote w (Spawn l)) i 7 in
+  let w' := solo remote (do_action remote w (Spawn l)) i 8 in
   nth_error (w_loaders w') i = Some (set_pc l (PDone (remote (l_type l) (l_release l)))) /\
   fget (w_fs w') (Final (l_type l) (l_release l)) = Some (remote (l_type l) (l_release l)) /\
   Inv remote w'.
